@@ -44,7 +44,15 @@ def main():
     # leave the evidence / generated files of the clean tree behind
     for p in sorted(set(p for v in results.values() if isinstance(v, dict) for p in v)):
         sh([os.path.join(VERIF, 'check'), p, '--tier', 'quick'], cwd=VERIF)
-    json.dump(results, open(os.path.join(VERIF, 'seeded', 'RESULTS.json'), 'w'), indent=1)
+    rp = os.path.join(VERIF, 'seeded', 'RESULTS.json')
+    allres = {}
+    if os.path.exists(rp):
+        try:
+            allres = json.load(open(rp))
+        except Exception:
+            allres = {}
+    allres.update(results)
+    json.dump(allres, open(rp, 'w'), indent=1, sort_keys=True)
 
 
 if __name__ == '__main__':
